@@ -48,6 +48,9 @@ CLAIMS = {
  'C15': dict(cat='proof', ref='DESIGN.md section 4, C15',
    text='the fire predicate proved against the statement (location entries fire on their n-th allocation at that location only, global entries on the global index); pending-list operations as bounded stand-ins; countdown allocator switching and the NULL behaviour of calloc/strdup/strndup proved.',
    note='pending list bounded (N in the evidence); side condition: two pending entries never designate the same allocation'),
+ 'C16': dict(cat='other', ref='DESIGN.md section 9.10 (C16 as built)',
+   text='PARTIAL claim, the decomposition that worked for C20: (A) every writer of JUnitTestOutput is proved to pass every VALUE (group, package, test name, test file, failure file, failure message, captured output) through encodeXmlText before it reaches the file, to write the fixed skeleton texts with every attribute value inside double quotes, one testcase element per collected test in list order with a failure element exactly for failed and a skipped marker exactly for ignored tests, the suite line with the collected test and failure counts, and open/header/summary/properties/cases/ending/close in this order (lists of up to 3 nodes: bounded); (B) encodeXmlText makes the six replacements in the order & " < > CR LF with the right entities, and a lemma over all 255 characters shows the result contains no raw markup character and decodes back; (C) collection: one node per started test appended at the tail with name/file/line/ignored, the first failure of a test counted and kept, later ones ignored, reset releases every node and failure once; (D) the file name is cpputest_[package_]group.xml with the ten forbidden characters replaced. That the whole file is accepted by an XML parser follows from (A)+(B) by an argument about the fixed skeleton, judged only by the native driver, not by an obligation.',
+   note='partial claim; trusted: StringFromFormat renders %s/%d as C does; replace() is C13; time stamp free of markup; undecided clauses in contracts/C16.undecided.txt'),
  'C17': dict(cat='proof', ref='DESIGN.md section 4, C17',
    text='pointer table discipline proved (no slot written at or beyond 32, failure raised instead; restore loop in bounds, terminates, index reset); restore order and plugin chains as bounded stand-ins.',
    note='restore order and plugin chains bounded (n in the evidence); that post actions run after failing/throwing tests is the C01 gap'),
@@ -65,7 +68,6 @@ CLAIMS = {
    note='partial claim; undecided clauses in contracts/C20.undecided.txt'),
 }
 NOT_APPLICABLE = {
- 'C16': 'well-formedness of the emitted XML is a grammar-membership property of printf-formatted text assembled from C++ string temporaries; no function contract states it and there is no XML judge in the verifier',
 }
 PENDING = 'contracts not yet written in this round (planned claim, see DESIGN.md section 4); not claimed until a check exists'
 
